@@ -144,6 +144,7 @@ def run(ck):
     ck.run_rule("C11.R1k", "reader/writer agreement on the '.internal<n>.' key grammar", 3, c11.rule_R1k)
     from . import c03 as _c03
     ck.run_rule("C03.R7", "listed values of constants defined through forward references: the polynomial arithmetic behind them", 18, _c03.rule_R7)
+    ck.run_rule("C03.R8", "listed values of constants that use a name another file exports and this file defines further down: the own definition wins", 1, _c03.rule_R8)
     ck.run_rule("C02.R7w", "listed values are final: every symbol is evaluated before the listing", 1, c02.rule_closing_wait)
     ck.run_rule("C02.R1", "announced size == produced length: a listed label address is where the next byte lies", 40, c02.rule_R1)
     ck.run_rule("C02.R7", "labels of the second, third ... linked file: each file starts at base + lengths of ALL files before it", 3, c02.rule_R7)
